@@ -153,6 +153,11 @@ def main(ctx):
         's_replace_on_continue': dict(part='layout',
                                       variant='replace_on_continue',
                                       invariants=['UnfoldOK']),
+        'keylist': dict(part='keylist', emit=True, maxblocks=2 if quick else 3,
+                        invariants=['TypeOK', 'ListEquiv', 'Independence',
+                                    'EmitRows']),
+        's_carry_enc_key': dict(part='keylist', variant='CarryEncKey',
+                                maxblocks=2, invariants=['Independence']),
         's_any_hash': dict(part='priv', variant='any_hash', bcrypt=bcrypt,
                            invariants=['TableEquiv']),
         's_stop_at_junk': dict(part='scanpriv', variant='stop_at_junk',
@@ -169,13 +174,15 @@ def main(ctx):
         futs = {n: ex.submit(tlc_part, **kw) for n, kw in jobs.items()}
         results = {n: f.result() for n, f in futs.items()}
     expect = {'s_replace_on_continue': 'UnfoldOK',
+              's_carry_enc_key': 'Independence',
               's_any_hash': 'TableEquiv', 's_stop_at_junk': 'ScanEquiv',
               's_wrong_pass': 'RoundTrip'}
     for n, res in results.items():
         ctx.require_tlc_ok(f'KeyFormats {n} {jobs[n]}', res,
                            expect_violation=expect.get(n))
     rows = {n: rows_of(results[n]) for n in
-            ('priv', 'pub', 'scanpriv', 'scanpub', 'chain', 'layout')}
+            ('priv', 'pub', 'scanpriv', 'scanpub', 'chain', 'layout',
+             'keylist')}
     for n, r in rows.items():
         ctx.require(len(r) > 50, f'{n}: only {len(r)} rows from TLC')
 
@@ -477,6 +484,14 @@ def main(ctx):
         scr = D.Scratch(tlc.WORK, 'c15_layout_')
         try:
             layouts(ctx, D, scr, rows['layout'], kts, quick, kf_sig, only)
+        finally:
+            scr.close()
+
+    # ---- 2f. key list loading ---------------------------------------------------
+    if only.kind('keylist'):
+        scr = D.Scratch(tlc.WORK, 'c15_keylist_')
+        try:
+            keylists(ctx, D, scr, rows['keylist'], kts, quick, kf_sig, only)
         finally:
             scr.close()
 
@@ -887,6 +902,166 @@ def interop(ctx, D, scr, kts, quick, rnd, kf_sig):
     passphrase_sweep(ctx, D, scr, kts, quick, kf_sig, stats)
     certificates(ctx, D, scr, kts, quick, kf_sig, stats)
     ctx.notes.append(f'independent readers/writers: {stats}')
+
+
+def keylists(ctx, D, scr, rows, kts, quick, kf_sig, only):
+    """Ordered key lists through load_keypairs / the client_keys= option /
+    load_public_keys / load_certificates.  Monitor: what comes out for entry
+    i is what entry i gives when loaded alone: same public key, same
+    certificate, sign() verifies under its own public key, the passphrase
+    callable is asked for its own file only, get_agent_private_key() is the
+    one of its own key; a wrong or missing passphrase is refused."""
+    import asyncssh
+    W = D.KeyListWorld(scr, kts)
+    data = b'key list signing test ' * 5
+    n_pairs = 0
+
+    def judge(pairs, out, case, rp, via):
+        nonlocal n_pairs
+        if len(pairs) != len(out):
+            ctx.violation(kf_sig('keylist', step='count', via=via, **case),
+                          f'{via}: {len(pairs)} key pairs for a list that '
+                          f'yields {len(out)} entry by entry: {case}', rp)
+            return
+        for n, (pair, rec) in enumerate(zip(pairs, out)):
+            i = rec['e']
+            kind = case['entries'][i - 1]
+            sig = kf_sig('keylist', via=via, result=n + 1, entry=i,
+                         kind=kind, **case)
+            n_pairs += 1
+            ref = W.reference_pair(i, rec['cert'])
+            if pair.key_public_data != W.keys[i].public_data or \
+                    pair.public_data != ref.public_data or \
+                    bool(pair.has_cert) != rec['cert']:
+                ctx.violation(dict(sig, step='identity'),
+                              f'{via}: result {n + 1} is not the key / '
+                              f'certificate of list entry {i} ({kind}): '
+                              f'{case}', rp)
+                continue
+            before = len(W.asked)
+            try:
+                sg = pair.sign(data)
+                exc = None
+            except Exception as e:      # pylint: disable=broad-except
+                sg, exc = None, e
+            asked = W.asked[before:]
+            if case['mode'] == 'callable_wrong' and rec['pend']:
+                if exc is None:
+                    ctx.violation(dict(sig, step='passphrase'),
+                                  f'{via}: entry {i} ({kind}) signs although '
+                                  f'the passphrase callable answers wrongly: '
+                                  f'{case}', rp)
+                continue
+            if exc is not None:
+                ctx.violation(dict(sig, step='sign'),
+                              f'{via}: sign() of entry {i} ({kind}) fails: '
+                              f'{type(exc).__name__}: {exc}: {case}', rp)
+                continue
+            if not W.keys[i].convert_to_public().verify(data, sg):
+                ctx.violation(dict(sig, step='verify'),
+                              f'{via}: the signature made by result {n + 1} '
+                              f'(list entry {i}, {kind}) does not verify under '
+                              f'its own public key: {case}', rp)
+                continue
+            own = [W.path(i, kind)] if rec['pend'] else []
+            if [str(a) for a in asked] != own:
+                ctx.violation(dict(sig, step='asked'),
+                              f'{via}: signing with entry {i} ({kind}) asked '
+                              f'for the passphrase of {asked}, expected '
+                              f'{own}: {case}', rp)
+                continue
+            try:
+                same = pair.get_agent_private_key() == \
+                    ref.get_agent_private_key()
+            except Exception as e:      # pylint: disable=broad-except
+                same = False
+            if not same:
+                ctx.violation(dict(sig, step='agent-key'),
+                              f'{via}: get_agent_private_key() of entry {i} '
+                              f'({kind}) is not that of its own key: {case}',
+                              rp)
+
+    for idx, (row, perr, pout) in enumerate(rows):
+        if not only.row('keylist', row):
+            continue
+        kinds = list(row['entries'])
+        case = dict(api=row['api'], entries=kinds, mode=row['mode'])
+        rp = {'kind': 'keylist', 'row': row}
+        ctx.count(('keylist', row['api'], tuple(kinds), row['mode']),
+                  nontrivial=len(kinds) > 1)
+        if row['api'] != 'keypairs':
+            entries = [W.entry(i + 1, k) for i, k in enumerate(kinds)]
+            try:
+                if row['api'] == 'public':
+                    got = [k.public_data for k in
+                           asyncssh.load_public_keys(entries)]
+                    want = [W.keys[r['e']].public_data for r in pout]
+                else:
+                    got = [c.public_data for c in
+                           asyncssh.load_certificates(entries)]
+                    want = [W.certs[r['e']].public_data for r in pout]
+            except Exception as exc:    # pylint: disable=broad-except
+                got, want = repr(exc), None
+            if got != want:
+                ctx.violation(kf_sig('keylist', step='list', **case),
+                              f'load_{row["api"]}: result does not match the '
+                              f'entries one by one: {case} ({got if want is None else "other keys"})',
+                              rp)
+            continue
+        vias = ['load_keypairs']
+        if perr == 0 and idx % 4 == 0:
+            vias.append('client_keys=')
+        for via in vias:
+            entries = [W.entry(i + 1, k) for i, k in enumerate(kinds)]
+            pw = W.passphrase(row['mode'])
+            try:
+                if via == 'load_keypairs':
+                    pairs = asyncssh.load_keypairs(
+                        entries, pw, unsafe_skip_rsa_key_validation=True)
+                else:
+                    pairs = asyncssh.SSHClientConnectionOptions(
+                        client_keys=entries, passphrase=pw).client_keys
+                exc = None
+            except Exception as e:      # pylint: disable=broad-except
+                pairs, exc = None, e
+            if perr:
+                if exc is None:
+                    ctx.violation(
+                        kf_sig('keylist', step='passphrase', via=via, **case),
+                        f'{via}: list with an encrypted key at entry {perr} '
+                        f'loads although the passphrase is '
+                        f'{row["mode"]}: {case}', rp)
+                elif isinstance(exc, TypeError) and \
+                        row['mode'].startswith('callable') and \
+                        any(k in ('enc', 'encbytes') for k in kinds):
+                    pass        # same defect as class callable-passphrase-...
+                elif not isinstance(exc, ValueError):
+                    ctx.divergence(f'keylist: expected KeyImportError at '
+                                   f'entry {perr}, got {type(exc).__name__}: '
+                                   f'{exc}: {case}')
+                continue
+            if exc is not None:
+                cls = 'load-fails'
+                if isinstance(exc, TypeError) and \
+                        row['mode'].startswith('callable') and \
+                        any(k in ('enc', 'encbytes') for k in kinds):
+                    # passphrase callable + encrypted key without .pub /
+                    # -cert.pub sibling (decrypted at load time)
+                    cls = 'callable-passphrase-immediate-decrypt'
+                ctx.violation(
+                    {'module': 'KeyFormats', 'part': 'keylist', 'class': cls,
+                     'via': via, 'entries': kinds, 'mode': row['mode']},
+                    f'{via}: a loadable key list fails with '
+                    f'{type(exc).__name__}: {exc}: {case}', rp)
+                continue
+            judge(pairs, pout, case, rp, via)
+    ctx.traces_validated(n_pairs)
+    ex = [r for r in rows if len(r[0]['entries']) > 1 and
+          r[0]['mode'] == 'callable' and r[1] == 0][:1]
+    if ex:
+        ctx.sample({'part': 'keylist', 'rows': len(rows),
+                    'key_pairs_checked': n_pairs, 'example_row': ex[0][0],
+                    'predicted_pairs': ex[0][2]}, limit=10)
 
 
 def layouts(ctx, D, scr, rows, kts, quick, kf_sig, only):
